@@ -775,6 +775,9 @@ def rule_poison(ctx):
     input that fails half-way (error exit) cannot leave something behind that changes how later inputs are analysed"""
     from . import C07
     C07.rule_R1(ctx, "R6")
+    # a finished connection's cache entry is removed under the key it is stored with - a stale entry would swallow later traffic
+    from ..engine import report as R
+    C07.rule_R2_R3(R.Retag(ctx, "C07."))
 
 
 def rule_liveness(ctx):
@@ -788,6 +791,7 @@ def rule_liveness(ctx):
             ctx.cannot("R7", fam + ":worker_loop", "%d worker_loop bodies" % len(wl))
             continue
         W.exit_conditions(ctx, P, fam, wl[0], wp[0] if len(wp) == 1 else None, "R7")
+    W.capture_loop_exits(ctx, P, "R7")
 
 
 def run(ctx):
